@@ -71,6 +71,43 @@ def _trace(ctx, f, e, within, depth=0):
     return calls, seen
 
 
+def _filters_producer(ctx, h):
+    """(function that creates the filters dict empty and fills it, the
+    dict's name there, the name of the request there, the
+    get_all_by_filters call sites of the handler)."""
+    calls = C.calls_to(ctx, h, 'placement.objects.resource_provider:'
+                       'get_all_by_filters')
+    reqn = (h.params + [None])[0]
+    if len(calls) != 1:
+        return h, None, reqn, calls
+    a = calls[0].args[1] if len(calls[0].args) > 1 else C.kwarg(
+        calls[0], 'filters')
+    if not isinstance(a, ast.Name):
+        return h, None, reqn, calls
+    fd = c05.single_def(h, a.id)
+    if fd is None:
+        return h, None, reqn, calls
+    if isinstance(fd.value, ast.Dict) and not fd.value.keys:
+        return h, a.id, reqn, calls
+    if isinstance(fd.value, ast.Call):
+        s = ctx.cg.site_of.get(fd.value)
+        if s is not None and len(s.callees) == 1:
+            g = s.callees[0]
+            rets = [r for r in own_nodes(g.node) if isinstance(r, ast.Return)]
+            if g.module is h.module and not g.decorators and len(
+                    rets) == 1 and isinstance(rets[0].value, ast.Name):
+                gd = c05.single_def(g, rets[0].value.id)
+                greq = None
+                for i, x in enumerate(fd.value.args):
+                    if isinstance(x, ast.Name) and x.id == reqn and i < len(
+                            g.params):
+                        greq = g.params[i]
+                if gd is not None and isinstance(
+                        gd.value, ast.Dict) and not gd.value.keys and greq:
+                    return g, rets[0].value.id, greq, calls
+    return h, None, reqn, calls
+
+
 def r131(ctx, R):
     prog = ctx.prog
     h = prog.func(HANDLER)
@@ -78,23 +115,26 @@ def r131(ctx, R):
     sch = prog.const('placement.schemas.resource_provider',
                      'GET_RPS_SCHEMA_1_18')
     schema_keys = set(sch.get('properties', {}))
+    # the function that builds the filters dict: the handler itself, or a
+    # same-module helper the handler delegates the building to
+    P, fvar, reqn, calls = _filters_producer(ctx, h)
     # keys read from req.GET
     read = set()
     qpkeys = set()
-    for n in own_nodes(h.node):
+    for n in own_nodes(P.node):
         if isinstance(n, ast.Compare) and len(n.ops) == 1 and isinstance(
                 n.ops[0], ast.In) and src(n.comparators[0]) == \
-                '%s.GET' % (h.params + [None])[0]:
+                '%s.GET' % reqn:
             if isinstance(n.left, ast.Constant):
                 read.add(n.left.value)
             elif isinstance(n.left, ast.Name):
                 # loop variable over a constant tuple
-                for lp in own_nodes(h.node):
+                for lp in own_nodes(P.node):
                     if isinstance(lp, ast.For) and src(lp.target) == \
                             n.left.id:
                         it = lp.iter
                         if isinstance(it, ast.Name):
-                            dd = c05.single_def(h, it.id)
+                            dd = c05.single_def(P, it.id)
                             it = dd.value if dd is not None else it
                         if isinstance(it, (ast.Tuple, ast.List)):
                             for x in it.elts:
@@ -115,19 +155,8 @@ def r131(ctx, R):
              'older schemas admit a subset and reject unknown keys',
              sorted(s2.get('properties', {})), nontrivial=False)
     # keys stored into the dict handed to the query builder
-    calls = C.calls_to(ctx, h, 'placement.objects.resource_provider:'
-                       'get_all_by_filters')
-    fvar = None
-    if len(calls) == 1:
-        a = calls[0].args[1] if len(calls[0].args) > 1 else C.kwarg(
-            calls[0], 'filters')
-        if isinstance(a, ast.Name):
-            fd = c05.single_def(h, a.id)
-            if fd is not None and isinstance(fd.value, ast.Dict) and \
-                    not fd.value.keys:
-                fvar = a.id
     produced = set()
-    for n in own_nodes(h.node):
+    for n in own_nodes(P.node):
         if isinstance(n, ast.Assign):
             for t in n.targets:
                 ts = t.elts if isinstance(t, ast.Tuple) else [t]
@@ -153,7 +182,7 @@ def r131(ctx, R):
          'the query builder knows exactly the eight documented filters',
          sorted(popped), func=d)
     # pairs returned by the normalisers are stored in the right order
-    for n in own_nodes(h.node):
+    for n in own_nodes(P.node):
         if isinstance(n, ast.Assign) and isinstance(
                 n.targets[0], ast.Tuple) and isinstance(n.value, ast.Call):
             keys = [x.slice.value for x in n.targets[0].elts
@@ -177,7 +206,7 @@ def r131(ctx, R):
                         'forbidden')
             R.ob('R13.1', 'pair-order:%s' % keys[0], ok,
                  '(required, forbidden) returned by the normaliser is stored '
-                 'as (%s, %s)' % tuple(keys), rn, func=h, node=n)
+                 'as (%s, %s)' % tuple(keys), rn, func=P, node=n)
     # the handler passes the dict it built
     R.ob('R13.1', 'passes-filters', fvar is not None,
          'get_all_by_filters(context, <the dict the handler created empty '
